@@ -429,7 +429,13 @@ func LoadCasketfile(serverType string) (Input, error) {
 // Wait blocks until all of i's servers have stopped.
 func (i *Instance) Wait() {
 	i.wg.Wait()
+	// and until a process-wide Stop that is under way has finished
+	stopping.RLock()
+	stopping.RUnlock()
 }
+
+// stopping is write-locked by Stop for as long as it is stopping instances.
+var stopping sync.RWMutex
 
 // CasketfileFromPipe loads the Casketfile input from f if f is
 // not interactive input. f is assumed to be a pipe or stream,
@@ -911,6 +917,13 @@ func loadServerBlocks(serverType, filename string, input io.Reader) ([]casketfil
 // instances after stopping is completed. Do not re-use any
 // references to old instances after calling Stop.
 func Stop() error {
+	// The last Wait() call in casketmain/run.go must block until the
+	// instances have been shut down here. (The instance's own wait group
+	// cannot be used for that: its servers may already have stopped and
+	// Wait may be returning, and adding to a drained wait group that is
+	// being waited on is a misuse that can panic.)
+	stopping.Lock()
+	defer stopping.Unlock()
 	// This awkward for loop is to avoid a deadlock since
 	// inst.Stop() also acquires the instancesMu lock.
 	for {
@@ -921,10 +934,6 @@ func Stop() error {
 		}
 		inst := instances[0]
 		instancesMu.Unlock()
-		// Increase the instance waitgroup so that the last wait() call in
-		// casketmain/run.go blocks until this server instance has shut down
-		inst.wg.Add(1)
-		defer inst.wg.Done()
 		if err := inst.Stop(); err != nil {
 			log.Printf("[ERROR] Stopping %s: %v", inst.serverType, err)
 		}
